@@ -388,26 +388,42 @@ structure CState where
   seen : List (String × String) := []
 
 /-- does the history lie in the class of `convergence_any_order` (every step good)?  `-` for
-    histories with `hold` (outside the class by definition) -/
+    histories with `hold` (outside the class by definition), `s` when every step is good but a slice is
+    still stale at the end (a pod was deleted and the slice controller has not rewritten the slice:
+    `convergence_to_derive` does not apply) -/
 def goodTok (ops : List Op) : String :=
   if ops.any (fun o => decide (o = Op.hold)) then "-"
-  else if decide (AllGood {} ops) then "1" else "0"
+  else if decide (AllGood {} [] ops) then (if (staleRun {} [] ops).isEmpty then "1" else "s") else "0"
 
 /-- the side conditions of `convergence_to_derive` on the final objects -/
 def sideOK (c : Ctl) : Bool :=
-  decide (WF c) && decide (NoCachedAddr c) && decide (NoPodAtUntargeted c) &&
-    (c.svcs.all fun sv => decide (DistinctB c sv.host))
+  decide (WF c) && decide (NoPodAtUntargeted c) && decide (c.slices.Nodup)
 
-/-- the conclusion of `convergence_to_derive`, evaluated: per hostname same service, same endpoint
-    set, same service-account set when there are endpoints -/
-def agreesWithDerive (c : Ctl) : Bool :=
-  ((akeys c.smap ++ c.svcs.map Svc.host).eraseDups).all fun h =>
-    match hostView c h, derive c h with
+/-- `ViewAgree` of the views of `c` with `derive d`, evaluated for every hostname: same service, same
+    endpoint LIST, same service accounts when there are endpoints -/
+def agreesWith (c d : Ctl) : Bool :=
+  ((akeys c.smap ++ c.svcs.map Svc.host ++ d.svcs.map Svc.host).eraseDups).all fun h =>
+    match hostView c h, derive d h with
     | some v, some d =>
-      decide (v.svc = d.svc) && showIEps v.eps == showIEps d.eps &&
-        (v.eps.isEmpty || showSas v.sas == showSas d.sas)
+      decide (v.svc = d.svc) && decide (v.eps = d.eps) && (v.eps.isEmpty || decide (v.sas = d.sas))
     | none, none => true
     | _, _ => false
+
+/-- `ViewAgree` between the views of two controllers, evaluated for every hostname -/
+def viewsAgree (c d : Ctl) : Bool :=
+  ((akeys c.smap ++ akeys d.smap).eraseDups).all fun h =>
+    match hostView c h, hostView d h with
+    | some v, some w =>
+      decide (v.svc = w.svc) && decide (v.eps = w.eps) && (v.eps.isEmpty || decide (v.sas = w.sas))
+    | none, none => true
+    | _, _ => false
+
+/-- the conclusion of `convergence_to_derive`, evaluated -/
+def agreesWithDerive (c : Ctl) : Bool := agreesWith c c
+
+/-- the hypotheses of `cold_start_inv` on the creates of a cold start -/
+def coldOK (objs : List Op) : Bool :=
+  decide (ColdOps {} objs) && decide (ColdHyp (coldFold {} objs).1) && decide (SvcBeforeSlice (coldFold {} objs).2)
 
 def stepClassify (cs : CState) (toks : List String) : CState × String :=
   match toks with
@@ -429,13 +445,15 @@ def stepClassify (cs : CState) (toks : List String) : CState × String :=
       (if before "slice" "pod" then fin.pods.filterMap fun p =>
           if untargetedAt fin p.ns p.ip then some ("untargeted-endpoint-pod-lookup-stale", p.ip) else none
         else [])
-    let _ := coldOps
     let cls := classify s'.c s'.c cold.c (causesAlong {} false ops ++ coldCauses ++ cs.seen ++ accountsKept cs.s.c s'.c)
     let g := goodTok ops
     let verdict := if showView s'.c = showView cold.c then "same" else
       "cls=" ++ (if cls.isEmpty then "unexplained" else ",".intercalate cls)
     ({ cs with s := s' }, verdict ++ " good=" ++ g ++ " side=" ++ boolTok (sideOK s'.c) ++ " derive=" ++
-      boolTok (agreesWithDerive s'.c))
+      boolTok (agreesWithDerive s'.c) ++ " cold=" ++ boolTok (coldOK coldOps) ++ " coldderive=" ++
+      boolTok (agreesWith cold.c (coldFold {} coldOps).1) ++
+      " nodes=" ++ boolTok (decide (NodesUnique (coldFold {} coldOps).1)) ++
+      " coldagree=" ++ boolTok (viewsAgree s'.c cold.c))
   | _ =>
     let s' := (stepD cs.s toks).1
     let ops := match toks with
